@@ -98,6 +98,7 @@ def run(prop, tier):
             eruns = rnd.sample(eruns, limit)
         jobs += [gen.engine_job(r) for r in eruns]
         engine["runs_replayed"] = len(eruns)
+    pairing = gen.prove_pairing() if prop == "C02" else None   # the pairing loop over unbounded amounts (Apalache, inductive invariant)
 
     print(f"[{timer.s():.0f}s] model checking done", file=sys.stderr)
     # (b) spec -> code: run the real rp2 on every generated history
@@ -215,7 +216,7 @@ def run(prop, tier):
         "rule": f"one evaluation = one real run of rp2 (compute_tax) on a TLC-generated history under one configuration/view; a trace is non-trivial for {prop} "
                 f"when TLC recorded a witness clause W.{prop}.* for it (the antecedent of the property occurred); traces are distinct (history, configuration) pairs",
         "exhaustive": all(g["exhaustive"] for g in genstats if not g["simulated_behaviours"]),
-        "model_checking": mc_results + ([engine] if engine else []), "generation": genstats,
+        "model_checking": mc_results + ([engine] if engine else []) + ([pairing] if pairing else []), "generation": genstats,
         "negative_controls": {"generated": ctl_total, "rejected_by_property_clause": ctl_rejected},
         "end_to_end_runs": {"runs": len(cli_results), "asset_traces": len(cli_traces), "runs_not_completed": len(incomplete), "generation": cli_stats},
         "histories_skipped_for_lattice_overflow": len(overflow),
